@@ -8,7 +8,7 @@ from .kernel import Kernel, SimAbort, HarnessError
 from .net import Net
 
 _PROXY_ENV = ("http_proxy", "HTTP_PROXY", "https_proxy", "HTTPS_PROXY", "no_proxy", "NO_PROXY",
-              "all_proxy", "ALL_PROXY", "WEBSOCKET_CLIENT_CA_BUNDLE", "SSLKEYLOGFILE")
+              "all_proxy", "ALL_PROXY", "WEBSOCKET_CLIENT_CA_BUNDLE", "SSLKEYLOGFILE", "SSL_CERT_FILE", "SSL_CERT_DIR")
 
 
 class SinkHandler(logging.Handler):
